@@ -4,6 +4,7 @@ import (
 	"fmt"
 	"go/token"
 	"go/types"
+	"sort"
 	"strings"
 
 	"golang.org/x/tools/go/ssa"
@@ -23,6 +24,8 @@ func init() {
 
 func runC10(p *Prog, r *Report) {
 	r.Min("C10.R1", 6)
+	r.Min("C10.R5", 6)
+	checkRenderTotal(p, r)
 	r.Min("C10.R2", 1)
 	r.Min("C10.R3", 6)
 	r.Min("C10.R4", 8)
@@ -580,6 +583,61 @@ func checkProtoFlag(p *Prog, r *Report) {
 		}
 		if !found {
 			r.Undecided("C10.R4", lastElem(rel)+"/scheme-flag", "-", "the command constructs the scanner", "no NewScanner call in package command")
+		}
+	}
+}
+
+// checkRenderTotal (R5): printing a record never panics on what the server sent. The record's String, ID
+// and MarshalJSON methods (called by the output writers with server-controlled maps and structs) contain no
+// unchecked type assertion and no slice / array / string indexing or slicing (map lookups are total).
+// A panic there kills the process: the endpoint and every later one go unreported.
+func checkRenderTotal(p *Prog, r *Report) {
+	for _, rel := range []string{"pkg/scan/elastic", "pkg/scan/docker"} {
+		pk := p.SPkg(rel)
+		if pk == nil {
+			r.Undecided("C10.R5", rel, "-", "package is loaded", "missing")
+			continue
+		}
+		for _, fn := range p.SrcFuncs() {
+			if fn.Pkg != pk || fn.Signature.Recv() == nil || fn.Parent() != nil {
+				continue
+			}
+			switch fn.Name() {
+			case "String", "ID", "MarshalJSON":
+			default:
+				continue
+			}
+			if !strings.HasSuffix(types.TypeString(fn.Signature.Recv().Type(), nil), ".ScanResult") {
+				continue
+			}
+			var bad []string
+			for g := range p.staticReach(fn) {
+				if g.Pkg != pk {
+					continue
+				}
+				for _, b := range g.Blocks {
+					for _, in := range b.Instrs {
+						switch t := in.(type) {
+						case *ssa.TypeAssert:
+							if !t.CommaOk {
+								bad = append(bad, "unchecked type assertion at "+p.Pos(t.Pos()))
+							}
+						case *ssa.IndexAddr:
+							if _, isArr := t.X.Type().Underlying().(*types.Pointer); !isArr {
+								bad = append(bad, "slice index at "+p.Pos(t.Pos()))
+							}
+						case *ssa.Index:
+							bad = append(bad, "index at "+p.Pos(t.Pos()))
+						case *ssa.Slice:
+							if _, isArr := t.X.Type().Underlying().(*types.Pointer); !isArr && (t.Low != nil || t.High != nil) {
+								bad = append(bad, "slice expression at "+p.Pos(t.Pos()))
+							}
+						}
+					}
+				}
+			}
+			sort.Strings(bad)
+			r.Check(len(bad) == 0, "C10.R5", FuncName(fn)+"/total", p.Pos(fn.Pos()), "rendering a record cannot panic on server-controlled data (no unchecked type assertion, no indexing)", strings.Join(bad, "; "))
 		}
 	}
 }
